@@ -169,6 +169,8 @@ def main() -> int:
     ap.add_argument("--no-build", action="store_true", help="debug: skip translate/build/audit")
     args = ap.parse_args()
     tier = args.tier if args.tier in ("quick", "thorough") else "quick"
+    if args.no_build:  # a debugging / sweep run is not evidence: never overwrite evidence/
+        C.EVIDENCE = os.path.join(C.VERIF, "evidence_scratch")
     seed = int(os.environ.get("VERIF_SEED", "0"))
     pid = args.prop
     t0 = time.time()
